@@ -658,6 +658,18 @@ func genG02(repo string, w *Out) error {
 		}
 		txt := ph.Src(st)
 		if strings.HasPrefix(txt, "if err != nil {") && strings.Contains(txt, "panic(http.ErrAbortHandler)") {
+			// the copy-error branch: every error must abort the handler (net/http then drops the connection
+			// instead of finishing the message, so a body cut short cannot look complete)
+			reLogH := regexp.MustCompile(`log\.(Debug|Error)\(res\.Request\.Context\(\), "[^"]*", "error", err\)`)
+			n := strings.Join(strings.Fields(reLogH.ReplaceAllString(txt, "LOG")), " ")
+			switch n {
+			case "if err != nil { p.traceWroteResponse(res, err) if isClosedConnError(err) { LOG } else { LOG } panic(http.ErrAbortHandler) }":
+				w.DefBool("hw_copy_error_aborts", true)
+			case "if err != nil { p.traceWroteResponse(res, err) if isClosedConnError(err) { LOG return } LOG panic(http.ErrAbortHandler) }":
+				w.DefBool("hw_copy_error_aborts", false)
+			default:
+				return fmt.Errorf("proxyHandler.writeResponse: copy-error branch %q is not a shape the model knows", n)
+			}
 			hstm = append(hstm, "ABORT-ON-ERROR")
 			continue
 		}
